@@ -14,8 +14,9 @@
    min/max" clauses fail there: C19_spec_refuted, C19_clamped_refuted, KnownDimsRespected_leaf_refuted.  The equality
    with leaf_spec and the clamping law are therefore proved for the class without aspect ratio (`_partial`). *)
 From Coq Require Import QArith Bool List ZArith.
-From TV Require Import Num.QNum Model.Common Model.Leaf Model.Root Model.LeafSpec Proofs.LeafAxis Proofs.LeafProofs.
+From TV Require Import Num.QNum Num.F32 Model.Common Model.Leaf Model.Root Model.LeafSpec Proofs.LeafAxis Proofs.LeafProofs Proofs.LeafF32.
 Import ListNotations.
+Open Scope Q_scope.
 
 (* ---- the box model: layout = leaf_spec, measure called exactly once without known dimensions and with the available
    content-box space.  Partial: proved for styles without aspect ratio (everything else -- all size/min/max kinds,
@@ -73,6 +74,25 @@ Theorem C19_floor_leaf : forall (inputs : LayoutInput XQ) (st : Style XQ) (measu
   sum_axes (le_padding_border (leaf_env inputs st)) = mkSize (Fin pbw) (Fin pbh) ->
   x_leb (Fin pbw) (width (out_size out)) = true /\ x_leb (Fin pbh) (height (out_size out)) = true.
 Proof. exact leaf_floor. Qed.
+
+(* the floor over binary32 (the arithmetic the implementation runs): an order-only fact, so no rounding analysis is
+   involved; padding + border is the rounded sum the code computes, assumed not NaN.  (Flocq: the standard-library axioms
+   of its real-number layer are reported for every statement that mentions F32.) *)
+Theorem C19_floor_F32 : forall (st : Style f32) (measure : MeasureFn f32) (av : Size (AvailableSpace f32)) lay calls,
+  display st <> DNone ->
+  root_leaf st measure av = Some (lay, calls) ->
+  let pb := sum_axes (rect_add (sp_padding st av) (sp_border st av)) in
+  f_is_nan (width pb) = false -> f_is_nan (height pb) = false ->
+  f_leb (width pb) (width (l_size lay)) = true /\ f_leb (height pb) (height (l_size lay)) = true.
+Proof. exact root_floor_f32. Qed.
+
+Theorem C19_floor_leaf_F32 : forall (inputs : LayoutInput f32) (st : Style f32) (measure : MeasureFn f32) out calls,
+  compute_leaf_layout inputs st measure = Some (out, calls) ->
+  f_is_nan (horizontal_axis_sum (le_padding_border (leaf_env inputs st))) = false ->
+  f_is_nan (vertical_axis_sum (le_padding_border (leaf_env inputs st))) = false ->
+  f_leb (horizontal_axis_sum (le_padding_border (leaf_env inputs st))) (width (out_size out)) = true /\
+  f_leb (vertical_axis_sum (le_padding_border (leaf_env inputs st))) (height (out_size out)) = true.
+Proof. exact leaf_floor_f32. Qed.
 
 (* ---- min <= max -> padding+border <= max -> min <= size <= max, per axis.  Partial: without aspect ratio; with one
    it is false (C19_clamped_refuted). *)
@@ -227,6 +247,8 @@ Print Assumptions C19_spec_refuted.
 Print Assumptions C19_ratio_transfer.
 Print Assumptions C19_floor.
 Print Assumptions C19_floor_leaf.
+Print Assumptions C19_floor_F32.
+Print Assumptions C19_floor_leaf_F32.
 Print Assumptions C19_clamped_partial.
 Print Assumptions C19_clamped_refuted.
 Print Assumptions C19_ratio_display_dependence.
